@@ -56,7 +56,7 @@ BEH11 = BEH9 + ("Dc", "Dp")
 BEH4 = ("V", "D", "S", "R")
 CLOSURE = 60      # deeper than the deepest reachable canonical state (18 measured): the search runs until no new state appears
 TIERS = {"quick": [(1, 6, BEH11), (2, 5, BEH6)],
-         "thorough": [(1, CLOSURE, BEH11), (2, CLOSURE, BEH8), (3, CLOSURE, BEH4)]}
+         "thorough": [(1, CLOSURE, BEH11), (2, CLOSURE, BEH6), (3, 6, BEH4)]}
 MAXTASKS = 3
 REASON_EXC = {"done": "TaskDone", "failed": "TaskFailed", "stopped": "TaskStopped", "schedstopped": "SchedulerStopped"}
 
